@@ -227,6 +227,16 @@ type MapKV map[KeyS]Small
 // ---------------------------------------------------------------------------
 // JSON-any
 
+type JArr struct {
+	Arr []any `plenc:"1"`
+}
+
+type JNest struct {
+	M  map[string][]any `plenc:"1"`
+	O  map[string]any   `plenc:"2"`
+	Tl string           `plenc:"3"`
+}
+
 type JDoc struct {
 	ID  int            `plenc:"1"`
 	Obj map[string]any `plenc:"2"`
@@ -361,6 +371,10 @@ func init() {
 	reg("KeyS", "F6", KeyS{})
 
 	reg("JDoc", "FJ", JDoc{})
+	reg("JArr", "FJ", JArr{})
+	reg("JNest", "FJ", JNest{})
+	reg("[]any", "FJ", []any{})
+	reg("map[string]any", "FJ", map[string]any{})
 
 	reg("V0", "F8", V0{})
 	reg("V1", "F8", V1{})
@@ -409,7 +423,7 @@ func TopOK(ti *TypeInfo, cfg InstCfg) bool {
 		return false
 	}
 	t := ti.T
-	if cfg.ProtoArrays && t.Kind() == reflect.Slice && t.Elem().Kind() != reflect.Uint8 && !isScalarKind(t.Elem()) {
+	if cfg.ProtoArrays && t.Kind() == reflect.Slice && t.Elem().Kind() != reflect.Uint8 && t.Elem().Kind() != reflect.Interface && !isScalarKind(t.Elem()) {
 		return false
 	}
 	return true
